@@ -201,6 +201,33 @@ def group0(t, m):
 def as_format(t):
     """If t is a formatted-string term (f-string, str.format or % — all normalised to ("fstr", parts))
     return (template with {} placeholders, [argument terms]); None if a field has a conversion or spec."""
+    if isinstance(t, tuple) and t and t[0] == "binop" and t[1] == "+":
+        # "(" + x + ")": concatenation with text constants is the same template as "({})".format(x)
+        leaves = []
+
+        def flat(u):
+            if u[0] == "binop" and u[1] == "+":
+                flat(u[2])
+                flat(u[3])
+            else:
+                leaves.append(u)
+        flat(t)
+        if any(x[0] == "const" and isinstance(x[1], str) for x in leaves) and not any(x[0] == "const" and not isinstance(x[1], str) for x in leaves):
+            tmpl, args = "", []
+            for x in leaves:
+                if x[0] == "const":
+                    tmpl += x[1].replace("{", "{{").replace("}", "}}")
+                elif x[0] == "fstr":
+                    sub_ = as_format(x)
+                    if sub_ is None:
+                        return None
+                    tmpl += sub_[0]
+                    args.extend(sub_[1])
+                else:
+                    tmpl += "{}"
+                    args.append(x)
+            return tmpl, args
+        return None
     if not (isinstance(t, tuple) and t and t[0] == "fstr"):
         return None
     tmpl, args = "", []
